@@ -41,20 +41,20 @@ func plan(c *vf.Ctx) []caseSpec {
 	var mix []pc
 	if c.Quick() {
 		mix = []pc{
-			{profile{Name: "small", Ops: 40}, 11},
+			{profile{Name: "small", Ops: 40}, 12},
 			{profile{Name: "install", Ops: 30, Install: true}, 2},
 			{profile{Name: "rot1", Ops: 26, Fill: 30000, BigBatch: true}, 8},
 			{profile{Name: "rot2", Ops: 24, Fill: 60000, BigBatch: true}, 3},
-			{profile{Name: "size", Ops: 20, SizeFill: 33}, 2},
+			{profile{Name: "size", Ops: 14, SizeFill: 33}, 1},
 			{profile{Name: "edge", Ops: 22, Fill: 29999}, 4},
 		}
 	} else {
 		mix = []pc{
-			{profile{Name: "small", Ops: 44}, 480},
+			{profile{Name: "small", Ops: 44}, 486},
 			{profile{Name: "install", Ops: 36, Install: true}, 40},
 			{profile{Name: "rot1", Ops: 34, Fill: 30000, BigBatch: true}, 150},
 			{profile{Name: "rot2", Ops: 30, Fill: 60000, BigBatch: true}, 30},
-			{profile{Name: "size", Ops: 24, SizeFill: 33}, 14},
+			{profile{Name: "size", Ops: 20, SizeFill: 33}, 8},
 			{profile{Name: "edge", Ops: 26, Fill: 29999}, 36},
 		}
 	}
@@ -323,8 +323,41 @@ func replay(c *vf.Ctx) {
 	}
 	w := f.Witness
 	if w.RW == 0 {
-		c.Broken("replay: witness has no rw/ops (a worker-fatal witness carries them under last_input)")
-		return
+		// worker-fatal witness: the case is the last logged input of the dead worker
+		var wf struct {
+			Witness struct {
+				Last struct {
+					Phase    string   `json:"phase"`
+					ID       string   `json:"id"`
+					RW       int      `json:"rw"`
+					Salt     uint64   `json:"salt"`
+					Ops      []Op     `json:"ops"`
+					Next     *Op      `json:"next"`
+					Crash    crashCtx `json:"crash"`
+					Kill     killSpec `json:"kill"`
+					ChildOps []Op     `json:"child_ops"`
+					Seq      string   `json:"seq"`
+				} `json:"last_input"`
+			} `json:"witness"`
+		}
+		_ = json.Unmarshal(b, &wf)
+		l := wf.Witness.Last
+		switch {
+		case l.Phase == "crash-tail":
+			replayCrash(c, l.RW, l.Salt, l.Crash)
+			return
+		case l.Phase == "crash-case":
+			replayCrash(c, l.RW, l.Salt, crashCtx{Kill: l.Kill, ChildOps: l.ChildOps, Seq: l.Seq})
+			return
+		case l.RW != 0:
+			w.ID, w.RW, w.Salt, w.Ops = l.ID, l.RW, l.Salt, l.Ops
+			if l.Next != nil {
+				w.Ops = append(w.Ops, *l.Next)
+			}
+		default:
+			c.Broken("replay: witness holds no case")
+			return
+		}
 	}
 	if w.Kind == "crash" {
 		var cc crashCtx
